@@ -217,6 +217,9 @@ def tasks(tier, seed, selftest=False):
         T.append({"prop": PROP, "family": "D3", "label": f"D3/{st}", "timebox": 40 if q else 900, "seed": seed,
                   "params": {"strat": st, "cross_every": 5 if q else 2}})
         if st in ("bfs", "build"):
+            # every variable in the negative feedback vertex set: retained-set heuristics and their greedy optimisation
+            T.append({"prop": PROP, "family": "N3", "label": f"N3/{st}", "timebox": 40 if q else 900, "seed": seed,
+                      "params": {"strat": st, "cross_every": 6}})
             T.append({"prop": PROP, "family": "SYM4", "label": f"SYM4/{st}", "timebox": 40 if q else 900, "seed": seed,
                       "params": {"strat": st, "cross_every": 4}})
             # networks with symmetric driver sets (two valuations of the same variable pair force a third variable)
